@@ -5,6 +5,7 @@ import (
 	"fmt"
 	"io"
 	"math"
+	"math/bits"
 	"slices"
 	"strconv"
 
@@ -390,40 +391,103 @@ func adjacentQuadrantY(quadrantI int) int {
 	return quadrantI ^ 0b10
 }
 
-// lineIntersects tests whether a line intersects with an extent.
-// TODO this can probably be faster by reusing the edges for the other three quadrants and/or only testing relevant edges (hints)
+// lineIntersects tests whether a (closed) line segment meets a (half-open) extent:
+// the left and bottom edges belong to the extent, the right and top edges do not.
+// The test is exact: the parameter t of p(t) = p0 + t*(p1-p0), 0 <= t <= 1, is clipped against
+// minX <= x < maxX and minY <= y < maxY using integer fractions compared with 128-bit products.
 func lineIntersects(intLine intgeom.Line, intExtent intgeom.Extent) bool {
 	// First see if a point is inside (cheap test).
-	pt1IsInsideQuadrant := containsPoint(intLine[0], intExtent)
-	pt2IsInsideQuadrant := containsPoint(intLine[1], intExtent)
-	if pt1IsInsideQuadrant || pt2IsInsideQuadrant {
+	if containsPoint(intLine[0], intExtent) || containsPoint(intLine[1], intExtent) {
 		return true
 	}
-
-	for edgeI, intEdge := range intExtent.Edges(nil) {
-		intersection, intersects := intgeom.SegmentIntersect(intLine, intEdge)
-		// Checking for intersection cq crossing is not enough. The right and top edges are exclusive.
-		// So there are exceptions ...:
-		if intersects { //nolint:nestif
-			if isExclusiveEdge(edgeI) {
-				if intLine[0] == intersection || intLine[1] == intersection {
-					// The tip of a line coming from the outside touches the (exclusive) edge.
-					continue
-				}
-			} else {
-				// The tip of a line coming from the outside touches the exclusive tip of an inclusive edge.
-				exclusivePoint := getExclusiveTip(edgeI, intEdge)
-				if intLine[0] == exclusivePoint || intLine[1] == exclusivePoint {
-					continue
-				}
+	lo := clipBound{0, 1, false}
+	hi := clipBound{1, 1, false}
+	for ax := xAx; ax <= yAx; ax++ {
+		a := intLine[0][ax]
+		d := intLine[1][ax] - a
+		minOrd, maxOrd := intExtent[ax], intExtent[ax+2]
+		switch {
+		case d > 0:
+			lo = lo.tightestLower(clipBound{minOrd - a, d, false})
+			hi = hi.tightestUpper(clipBound{maxOrd - a, d, true})
+		case d < 0:
+			lo = lo.tightestLower(clipBound{a - maxOrd, -d, true})
+			hi = hi.tightestUpper(clipBound{a - minOrd, -d, false})
+		default:
+			if a < minOrd || a >= maxOrd {
+				return false
 			}
-			return true
-		} else if !isExclusiveEdge(edgeI) && lineOverlapsInclusiveEdge(intLine, edgeI, intEdge) {
-			// No intersection but overlap on an inclusive edge.
-			return true
 		}
 	}
-	return false
+	c := lo.cmp(hi)
+	return c < 0 || (c == 0 && !lo.open && !hi.open)
+}
+
+// clipBound is a bound num/den (den > 0) on the line parameter; open means the bound itself is excluded.
+type clipBound struct {
+	num, den int64
+	open     bool
+}
+
+func (b clipBound) cmp(o clipBound) int {
+	return cmpProducts(b.num, o.den, o.num, b.den)
+}
+
+func (b clipBound) tightestLower(o clipBound) clipBound {
+	if c := b.cmp(o); c < 0 || (c == 0 && o.open) {
+		return o
+	}
+	return b
+}
+
+func (b clipBound) tightestUpper(o clipBound) clipBound {
+	if c := b.cmp(o); c > 0 || (c == 0 && o.open) {
+		return o
+	}
+	return b
+}
+
+// cmpProducts compares a*b with c*d without overflow
+func cmpProducts(a, b, c, d int64) int {
+	abNeg, abHi, abLo := mul128(a, b)
+	cdNeg, cdHi, cdLo := mul128(c, d)
+	abZero := abHi == 0 && abLo == 0
+	cdZero := cdHi == 0 && cdLo == 0
+	switch {
+	case abZero && cdZero:
+		return 0
+	case abZero:
+		return mathhelp.Bool2int(cdNeg) - mathhelp.Bool2int(!cdNeg)
+	case cdZero:
+		return mathhelp.Bool2int(!abNeg) - mathhelp.Bool2int(abNeg)
+	case abNeg != cdNeg:
+		return mathhelp.Bool2int(cdNeg) - mathhelp.Bool2int(abNeg)
+	}
+	magnitude := 0
+	switch {
+	case abHi != cdHi:
+		magnitude = mathhelp.Bool2int(abHi > cdHi) - mathhelp.Bool2int(abHi < cdHi)
+	case abLo != cdLo:
+		magnitude = mathhelp.Bool2int(abLo > cdLo) - mathhelp.Bool2int(abLo < cdLo)
+	}
+	if abNeg {
+		return -magnitude
+	}
+	return magnitude
+}
+
+// mul128 returns sign and magnitude of a*b
+func mul128(a, b int64) (negative bool, hi, lo uint64) {
+	negative = (a < 0) != (b < 0)
+	hi, lo = bits.Mul64(absUint64(a), absUint64(b))
+	return negative, hi, lo
+}
+
+func absUint64(v int64) uint64 {
+	if v < 0 {
+		return uint64(-(v + 1)) + 1
+	}
+	return uint64(v)
 }
 
 func (ix *PointIndex) GetHitMultiple(l Level) map[intgeom.Point][]int {
@@ -445,48 +509,6 @@ func checkPointHits(ix *PointIndex, vertex intgeom.Point, ringID int, level uint
 		// first hit of this point by any ring
 		levelHitOnce[vertex] = append(levelHitOnce[vertex], ringID)
 	}
-}
-
-func isExclusiveEdge(edgeI int) bool {
-	i := edgeI % 4
-	return i == 1 || i == 2
-}
-
-// getExclusiveTip returns the tip point of an inclusive edge that is not-inclusive
-func getExclusiveTip(edgeI int, edge intgeom.Line) intgeom.Point {
-	i := edgeI % 4
-	if i == 0 {
-		return edge[1]
-	} else if i == 3 {
-		return edge[0]
-	}
-	panic(fmt.Sprintf("not an inclusive edge: %v", edgeI))
-}
-
-// lineOverlapsInclusiveEdge helps to check if a line overlaps an inclusive edge (excluding the exclusive tip)
-func lineOverlapsInclusiveEdge(intLine intgeom.Line, edgeI int, intEdge intgeom.Line) bool {
-	var constAx, varAx int
-	switch {
-	case intEdge[0][xAx] == intEdge[1][xAx]:
-		constAx = xAx
-		varAx = yAx
-	case intEdge[0][yAx] == intEdge[1][yAx]:
-		constAx = yAx
-		varAx = xAx
-	default:
-		panic(fmt.Sprintf("not a straight edge: %v", intEdge))
-	}
-	eConstOrd := intEdge[0][constAx]
-	if intLine[0][constAx] != eConstOrd || intLine[1][constAx] != eConstOrd {
-		return false // not a straight line and/or not on same line as the edge, so no overlap
-	}
-	eOrd1 := intEdge[0][varAx]
-	eOrd2 := intEdge[1][varAx]
-
-	exclusiveTip := getExclusiveTip(edgeI, intEdge)
-	lOrd1 := intLine[0][varAx]
-	lOrd2 := intLine[1][varAx]
-	return lOrd1 != lOrd2 && (mathhelp.IBetweenInc(lOrd1, eOrd1, eOrd2) && intLine[0] != exclusiveTip || mathhelp.IBetweenInc(lOrd2, eOrd1, eOrd2) && intLine[1] != exclusiveTip)
 }
 
 func oneIfRight(quadrantI int) int {
